@@ -1136,6 +1136,14 @@ impl Obs for C15 {
                 let mut w = Bounded(limit);
                 let _ = write!(w, "{}", s);
             });
+            // ... and into a sink that panics part-way (println! on a closed stdout does), the panic being
+            // contained by the caller
+            if limit % 3 == 0 {
+                let _ = guard(|| {
+                    let mut w = crate::textprops::PanickingSink(limit / 2);
+                    let _ = write!(w, "{}", s);
+                });
+            }
         }
         let printed = guard(|| s.to_string()).map_err(|p| Fail::new("C15:print_panic", format!("{} at {}", p, v.describe())))?;
         let parsed = guard(|| printed.parse::<GameState>()).map_err(|p| Fail::new("C15:parse_panic", format!("{} on printed form of {}", p, v.describe())))?;
